@@ -2,14 +2,14 @@
 #include "scen_future.h"
 namespace hz {
 static const Info I = {
-    "C01", 1, 24, 60000, true, true,
+    "C01", 1, 26, 60000, true, true,
     "rapidcheck generates (program, schedule, faults); the program decodes to a value type in {int, void, move-only, int&, instance-counted}, "
     "2..4 resolver threads sharing ONE promise (each: value / exception / drop / nothing / async coroutine bound by start(promise) returning or throwing / move the promise away then resolve / move-assign away and destroy / bind(value)() / unhandled_exception() / promise_with_default destroyed), "
     "the promise moved 0..2 times first, 0..2 observers of 7 kinds, harness yields; the owner destroys the promise after joining the resolvers. "
     "Oracle: exactly one call reports success (0 if nobody acted -> destructor resolves), final result == winner's payload, all observers agree, "
     "result stable on re-read, instance counts balanced, allocation balance 0. Non-trivial = two acting resolvers' call intervals overlapped AND a "
     "context switch happened inside a library operation; distinct = hash(decoded program, executed switch trace).",
-    scen_future::class_names, 8, scen_future::counter_names, 2};
+    scen_future::class_names, 8, scen_future::counter_names, 3};
 const Info &info() { return I; }
 void run_case(Reader &r) { scen_future::run(r, scen_future::M_C01); }
 std::string describe(Reader &r) { return scen_future::describe(scen_future::decode(r, scen_future::M_C01)); }
